@@ -484,6 +484,7 @@ func runC16More(c *Ctx) {
 	p := c.P
 	runC16Lazy(c)
 	runC16Enabled(c)
+	runC16Round4(c)
 	pk := p.Pkg("config/confighttp")
 	if pk == nil {
 		c.Anchor("config/confighttp")
